@@ -299,9 +299,15 @@ pub fn classify_index_deviation(base_sig: &str, got: &BTreeSet<i64>, exp: &BTree
     }
     // (4) BTreeIndex::remap ignores a pending fragment-reuse (deferred) mapping: an ordinary
     //     compaction after a deferred one drops the entries => missing rows only.
-    if !missing_done && extra_done && !cx.stable_row_ids && cx.normal_after_deferred && indexed.iter().any(|(_, ix)| *ix == Ix::BTree) {
-        sigs.push("btree-remap-after-deferred-remap-compaction-loses-rows".into());
+    //     Under NOT(index query) the lost entries show up as extra rows instead.
+    if !cx.stable_row_ids && cx.normal_after_deferred && indexed.iter().any(|(_, ix)| *ix == Ix::BTree) && (!missing_done || (!extra_done && cx.plan_has_not)) {
+        if !sigs.iter().any(|s| s.starts_with("btree-remap")) {
+            sigs.push("btree-remap-after-deferred-remap-compaction-loses-rows".into());
+        }
         missing_done = true;
+        if cx.plan_has_not {
+            extra_done = true;
+        }
     }
     // (5) stable row ids: mask_to_offset_ranges miscounts offsets of RangeWithBitmap segments
     //     (silent variant of ROWIDS_PANIC_SIG): as many wrong rows as missing ones.
